@@ -205,7 +205,12 @@ def roundtrip(r, fmt):
         sc2, pps2 = CommonRoadFileReader(path, file_format=ff).open(lanelet_assignment=bool(r.get("read_la")) and la_domain(r))
         if r.get("network_only"):
             # the reader's second entry point: only the lanelet network of the file
-            net_only = CommonRoadFileReader(path, file_format=ff).open_lanelet_network()
+            # ... asked of a reader object that has already opened the whole file (and whose first result has been
+            # edited by its owner in the meantime)
+            reader0 = CommonRoadFileReader(path, file_format=ff)
+            first_sc, _ = reader0.open()
+            first_sc.translate_rotate(np.array([5.0, -3.0]), 0.3)
+            net_only = reader0.open_lanelet_network()
             a, b = sn.snap_network(sc2.lanelet_network), sn.snap_network(net_only)
             diffs = sn.compare(a, b, lambda p: 0)
             if diffs:
